@@ -87,6 +87,7 @@ class Router:
                 length=len(data),
                 max_hop_limit=request.gn_max_hop_limit,
                 max_packet_lifetime=request.gn_max_packet_lifetime,
+                destination=request.gn_destination_address,
             )
             self.logging.debug(
                 "Sending BTP Data Request: %s", gn_data_request.data)
@@ -110,6 +111,7 @@ class Router:
                 length=len(data),
                 max_hop_limit=request.gn_max_hop_limit,
                 max_packet_lifetime=request.gn_max_packet_lifetime,
+                destination=request.gn_destination_address,
             )
             self.logging.debug(
                 "Sending BTP-A Data Request: %s", gn_data_request.data)
